@@ -339,3 +339,60 @@ def piecewise_loops(fns):
                     bad.append(c)
             out.append((f, tot, part, bad, n_calls))
     return out
+
+
+def paired_cursor_updates(fns, record, fa, fb, exempt=()):
+    """Two fields of one record that describe the same position in two spaces (logical / physical start of an
+    extent) move together: every compound update (`+=`, `-=`, `++`, `--`) of X.fa has, in the same basic block,
+    the same update of X.fb with the same operand, and vice versa.
+    -> [(fn, node, field, ok)]"""
+    out = []
+    for f in fns:
+        ups = [n for n in f.events("S") if T.last_field(n.ev["lhs"]) and T.last_field(n.ev["lhs"])[0] == record and
+               T.last_field(n.ev["lhs"])[1] in (fa, fb) and n.ev.get("o") in ("+=", "-=", "++", "--")]
+        for n in ups:
+            fld = T.last_field(n.ev["lhs"])[1]
+            other = fb if fld == fa else fa
+            base = (T.path(n.ev["lhs"]) or "").rsplit("->", 1)[0]
+            if (f.file, f.name, base) in exempt:
+                continue
+            rhs = T.pp(n.ev.get("rhs")) if isinstance(n.ev.get("rhs"), dict) else ""
+            mate = [m for m in ups if m.bid == n.bid and T.last_field(m.ev["lhs"])[1] == other and
+                    (T.path(m.ev["lhs"]) or "").rsplit("->", 1)[0] == base and m.ev.get("o") == n.ev.get("o") and
+                    (T.pp(m.ev.get("rhs")) if isinstance(m.ev.get("rhs"), dict) else "") == rhs]
+            out.append((f, n, fld, bool(mate)))
+    return out
+
+
+def stale_after_call(fn, call, reads_field):
+    """locals computed (before `call`) from an expression reading `reads_field`, which are read again after `call`
+    without having been assigned anew: if the callee can change that field, those locals are stale.
+    -> [(local, use node)]"""
+    before = fn.reach_back([call])
+    after = fn.reach(fn.after(call))
+    out = []
+    for n in fn.events("S"):
+        l = T.strip(n.ev["lhs"])
+        if l.get("k") != "v" or l.get("s") != "l" or n not in before or not isinstance(n.ev.get("rhs"), dict):
+            continue
+        if reads_field not in T.field_names(n.ev["rhs"]):
+            continue
+        v = l["n"]
+        redefs = [m for m in fn.events("S") if m in after and T.strip(m.ev["lhs"]).get("k") == "v" and
+                  T.strip(m.ev["lhs"])["n"] == v]
+        live = fn.reach(fn.after(call), avoid=redefs)
+        for m in fn.nodes():
+            if m not in live or m is n:
+                continue
+            trees = []
+            if m.ev:
+                if m.ev["e"] == "S":
+                    trees = [m.ev.get("rhs")] + ([m.ev.get("lhs")] if T.strip(m.ev["lhs"]).get("k") != "v" else [])
+                else:
+                    trees = [m.ev.get("x")]
+            else:
+                t = fn.blocks[m.bid].get("t")
+                trees = [t.get("c")] if t else []
+            if any(isinstance(tr, dict) and v in T.vars_in(tr) for tr in trees):
+                out.append((v, m))
+    return out
